@@ -74,6 +74,8 @@ struct WC {
             }
         }
 #if CONTACT_MODEL_INDEX == 1
+        // a coupling is a pair: a node whose chosen partner has meanwhile coupled to a closer node is not coupled (fix aa146e0 made the code say so too)
+        for (size_t i = 0; i < copies.size(); i++) for (auto& n1 : cell_tester::nodes(*copies[i])) if (n1.is_used() && n1.is_coupled()) { auto [c2, n2] = n1.get_coupled_node(); bool mutual = false; if (c2 < copies.size()) { auto& N2 = cell_tester::nodes(*copies[c2]); if (n2 < N2.size() && N2[n2].is_coupled()) { auto back = N2[n2].get_coupled_node(); mutual = back.first == copies[i]->get_local_id() && back.second == n1.get_local_id(); } } if (!mutual) { cell_tester::coupled(n1) = std::nullopt; cell_tester::sqd(n1) = std::numeric_limits<double>::max(); } }
         for (size_t i = 0; i < copies.size(); i++) for (auto& n1 : cell_tester::nodes(*copies[i])) if (n1.is_used() && n1.is_coupled()) { auto [c2, n2] = n1.get_coupled_node(); if (i > c2 && c2 < copies.size()) { auto& N2 = cell_tester::nodes(*copies[c2]); if (n2 < N2.size()) { vec3 ctr = (n1.pos() + N2[n2].pos()) * 0.5; cell_tester::pos(n1).reset(ctr); cell_tester::pos(N2[n2]).reset(ctr); } } }
 #endif
     }
